@@ -568,3 +568,58 @@ class ExamineReadOnly(Harness):
         if before != after:
             return {"observed": {"before": before, "after": after, "reply": reply[-1:] }, "clause": "flags and messages unchanged by a command of an EXAMINE session"}
         return None
+
+
+class DequeuedAtShutdown(Harness):
+    """A command the management task has already taken off the queue when the mailbox is shut down (DELETE, server stop) is
+    still answered promptly - not by the command watchdog (C06, C10: deletion of a mailbox with queued commands)."""
+
+    scope = "mailbox with 3 messages; session A's DELETE (or EXPUNGE + DELETE) is held inside the folder removal while session B issues one command on the same mailbox (STATUS, SELECT, APPEND-less commands), with 0-2 more commands queued behind it; every command must be answered within 3 s, the watchdog being set to 30 s"
+    exhaustive = False
+
+    def inputs(self, tier, seed):
+        for cmd in ["STATUS foo (MESSAGES)", "SELECT foo", "EXAMINE foo", "STATUS foo (UIDNEXT UNSEEN)"]:
+            for extra in (0, 1, 2):
+                yield {"cmd": cmd, "extra": extra}
+
+    def check(self, inp):
+        import os
+
+        os.environ["PYVC_CMD_TIMEOUT"] = "30"
+
+        async def go():
+            async with World({"inbox": 1, "foo": 3}) as w:
+                a = w.session("a")
+                others = [w.session(f"b{i}") for i in range(1 + inp["extra"])]
+                mbox = await w.server.get_mailbox("foo")
+                started, release = asyncio.Event(), asyncio.Event()
+                orig = mbox.mailbox.aclear
+
+                async def slow(*args, **kw):
+                    started.set()
+                    await release.wait()
+                    return await orig(*args, **kw)
+
+                mbox.mailbox.aclear = slow
+                ta = asyncio.create_task(a.cmd("DELETE foo"))
+                await asyncio.wait_for(started.wait(), 5)
+                tasks = []
+                for s in others:
+                    tasks.append(asyncio.create_task(s.cmd(inp["cmd"])))
+                    await asyncio.sleep(0.1)
+                release.set()
+                await asyncio.wait_for(ta, 10)
+                late = []
+                for i, t in enumerate(tasks):
+                    try:
+                        r = await asyncio.wait_for(t, 3)
+                        if not r or not r[-1].split(" ", 2)[1] in ("OK", "NO", "BAD"):
+                            late.append((i, r[-1:] ))
+                    except asyncio.TimeoutError:
+                        late.append((i, "no tagged reply within 3 s"))
+                return late
+
+        late = run(go(), timeout=90)
+        if late:
+            return {"observed": late, "clause": "every command issued while the mailbox was being deleted is answered promptly (not by the watchdog)"}
+        return None
